@@ -17,4 +17,125 @@ theorem add_n_val (u v : List Nat) (hu : Limbs u) (hv : Limbs v) (hl : u.length 
 -- non-vacuity: a concrete carry chain
 example : add_n [B - 1, B - 1] [1, 0] = ([0, 0], 1) := by decide
 
+/-- mpn_sub_n: for all lengths and limb contents, result + v = u + B^n·borrow, borrow ∈ {0,1},
+    result limbs proper, result has n limbs. -/
+theorem sub_n_val (u v : List Nat) (hu : Limbs u) (hv : Limbs v) (hl : u.length = v.length) :
+    val (sub_n u v).1 + val v = val u + B ^ u.length * (sub_n u v).2 ∧
+    (sub_n u v).2 ≤ 1 ∧ Limbs (sub_n u v).1 ∧ (sub_n u v).1.length = u.length := by
+  simpa [sub_n] using subNC_val u v 0 hu hv hl (by omega)
+
+-- non-vacuity: a borrow chain through a zero limb
+example : sub_n [0, 0] [1, 0] = ([B - 1, B - 1], 1) := by decide
+
+/-- mpn_add_1 (n ≥ 1, v a limb): result + B^n·carry = u + v, carry ∈ {0,1}; covers both the
+    propagate path and the early-exit "copy the rest" path of `__GMPN_AORS_1`. -/
+theorem add_1_val (u : List Nat) (v : Nat) (hu : Limbs u) (hn : 1 ≤ u.length) (hv : v < B) :
+    val (add_1 u v).1 + B ^ u.length * (add_1 u v).2 = val u + v ∧
+    (add_1 u v).2 ≤ 1 ∧ Limbs (add_1 u v).1 ∧ (add_1 u v).1.length = u.length := by
+  match u, hn with
+  | x :: xs, _ => exact add_1_val' x xs v hu hv
+
+-- non-vacuity: carry stops at limb 1, limb 2 is copied
+example : add_1 [B - 1, 5, 7] 3 = ([2, 6, 7], 0) := by decide
+example : add_1 [B - 1, B - 1] 1 = ([0, 0], 1) := by decide
+
+/-- mpn_sub_1 (n ≥ 1, v a limb): result + v = u + B^n·borrow, borrow ∈ {0,1}; both paths. -/
+theorem sub_1_val (u : List Nat) (v : Nat) (hu : Limbs u) (hn : 1 ≤ u.length) (hv : v < B) :
+    val (sub_1 u v).1 + v = val u + B ^ u.length * (sub_1 u v).2 ∧
+    (sub_1 u v).2 ≤ 1 ∧ Limbs (sub_1 u v).1 ∧ (sub_1 u v).1.length = u.length := by
+  match u, hn with
+  | x :: xs, _ => exact sub_1_val' x xs v hu hv
+
+example : sub_1 [1, 0, 7] 3 = ([B - 2, B - 1, 6], 0) := by decide
+example : sub_1 [0, 0] 1 = ([B - 1, B - 1], 1) := by decide
+
+/-- mpn_add (xsize ≥ ysize ≥ 0): result + B^xsize·carry = x + y, carry ∈ {0,1}, xsize limbs. -/
+theorem add_val (x y : List Nat) (hx : Limbs x) (hy : Limbs y) (hl : y.length ≤ x.length) :
+    val (add x y).1 + B ^ x.length * (add x y).2 = val x + val y ∧
+    (add x y).2 ≤ 1 ∧ Limbs (add x y).1 ∧ (add x y).1.length = x.length :=
+  add_val' x y hx hy hl
+
+example : add [B - 1, B - 1, 4] [1] = ([0, 0, 5], 0) := by decide
+example : add [B - 1, B - 1] [1] = ([0, 0], 1) := by decide
+example : add [3, 4] [] = ([3, 4], 0) := by decide
+
+/-- mpn_sub (xsize ≥ ysize ≥ 0): result + y = x + B^xsize·borrow, borrow ∈ {0,1}, xsize limbs. -/
+theorem sub_val (x y : List Nat) (hx : Limbs x) (hy : Limbs y) (hl : y.length ≤ x.length) :
+    val (sub x y).1 + val y = val x + B ^ x.length * (sub x y).2 ∧
+    (sub x y).2 ≤ 1 ∧ Limbs (sub x y).1 ∧ (sub x y).1.length = x.length :=
+  sub_val' x y hx hy hl
+
+example : sub [0, 0, 4] [1] = ([B - 1, B - 1, 3], 0) := by decide
+example : sub [0, 0] [1] = ([B - 1, B - 1], 1) := by decide
+
+/-- mpn_com_n: result + u = B^n − 1 (every limb complemented), n limbs. -/
+theorem com_n_val (u : List Nat) (hu : Limbs u) :
+    val (com_n u) + val u = B ^ u.length - 1 ∧ Limbs (com_n u) ∧ (com_n u).length = u.length := by
+  obtain ⟨hv, hl, hn⟩ := com_n_val' u hu
+  exact ⟨by omega, hl, hn⟩
+
+example : com_n [0, 5, B - 1] = [B - 1, B - 6, 0] := by decide
+
+/-- mpn_neg_n (C domain n ≥ 1; the identity also holds for the empty vector): two's complement,
+    result + u = B^n·borrow where borrow = 1 iff u ≠ 0 (zero run copied, first non-zero limb negated,
+    the rest complemented). -/
+theorem neg_n_val (u : List Nat) (hu : Limbs u) :
+    val (neg_n u).1 + val u = B ^ u.length * (neg_n u).2 ∧
+    (neg_n u).2 = (if val u = 0 then 0 else 1) ∧
+    Limbs (neg_n u).1 ∧ (neg_n u).1.length = u.length := by
+  obtain ⟨hv, hc, hl, hn⟩ := negNC_zero_val u hu
+  refine ⟨hv, ?_, hl, hn⟩
+  rcases hc with ⟨c0, v0⟩ | ⟨c1, v1⟩
+  · rw [if_pos v0]; exact c0
+  · rw [if_neg v1]; exact c1
+
+example : neg_n [0, 5, 7] = ([0, B - 5, B - 8], 1) := by decide
+example : neg_n [0, 0] = ([0, 0], 0) := by decide
+
+/-- mpn_lshift (1 ≤ cnt ≤ 63; C domain n ≥ 1, the identity also holds for the empty vector):
+    result + B^n·ret = u·2^cnt, the returned limb holds exactly the cnt bits shifted out. -/
+theorem lshift_val (u : List Nat) (c : Nat) (hu : Limbs u) (hc1 : 1 ≤ c) (hc : c ≤ 63) :
+    val (lshift u c).1 + B ^ u.length * (lshift u c).2 = val u * 2 ^ c ∧
+    (lshift u c).2 < 2 ^ c ∧ Limbs (lshift u c).1 ∧ (lshift u c).1.length = u.length := by
+  have := lshiftGo_val c (by omega) u 0 hu (by positivity)
+  simpa [lshift] using this
+
+example : lshift [B - 1, 1] 4 = ([B - 16, 31], 0) := by decide
+example : lshift [3, 2 ^ 63 + 5] 1 = ([6, 10], 1) := by decide
+
+/-- mpn_rshift (1 ≤ cnt ≤ 63, n ≥ 1): result·B + ret = u·2^(64−cnt): the result is u shifted right and
+    the returned limb holds the cnt bits shifted out, left-aligned.  Equivalently (second part)
+    result = ⌊u / 2^cnt⌋ and ret = (u mod 2^cnt)·2^(64−cnt). -/
+theorem rshift_val (u : List Nat) (c : Nat) (hu : Limbs u) (hn : 1 ≤ u.length) (hc1 : 1 ≤ c) (hc : c ≤ 63) :
+    val (rshift u c).1 * B + (rshift u c).2 = val u * 2 ^ (64 - c) ∧
+    (rshift u c).2 < B ∧ Limbs (rshift u c).1 ∧ (rshift u c).1.length = u.length ∧
+    val (rshift u c).1 = val u / 2 ^ c ∧ (rshift u c).2 = (val u % 2 ^ c) * 2 ^ (64 - c) := by
+  match u, hn with
+  | x :: xs, _ => exact rshift_val' x xs c hu hc1 hc
+
+example : rshift [5, 3] 1 = ([2 ^ 63 + 2, 1], 2 ^ 63) := by decide
+example : rshift [B - 1, B - 1] 60 = ([B - 1, 15], B - 16) := by decide
+
+/-- mpn_cmp (equal sizes, size 0 allowed): the limb-by-limb comparison from the top returns the sign
+    of val u − val v. -/
+theorem cmp_spec (u v : List Nat) (hu : Limbs u) (hv : Limbs v) (hl : u.length = v.length) :
+    cmp u v = (if val u < val v then -1 else if val u = val v then 0 else 1) := by
+  have h := cmpRev_spec u.reverse v.reverse (Limbs_reverse hu) (Limbs_reverse hv) (by simpa using hl)
+  rw [List.reverse_reverse, List.reverse_reverse] at h
+  unfold cmp
+  rcases h with ⟨h1, h2⟩ | ⟨h1, h2⟩ | ⟨h1, h2⟩
+  · rw [h1, if_pos h2]
+  · rw [h1, if_neg (by omega), if_pos h2]
+  · rw [h1, if_neg (by omega), if_neg (by omega)]
+
+example : cmp [5, 7] [6, 7] = -1 := by decide
+example : cmp [B - 1, 2] [0, 3] = -1 := by decide
+example : cmp [1, 3] [B - 1, 2] = 1 := by decide
+example : cmp [4, 4] [4, 4] = 0 := by decide
+
+/-- mpn_zero_p: returns true exactly when the value is zero (limbs need not even be proper). -/
+theorem zero_p_iff (u : List Nat) : zero_p u = true ↔ val u = 0 := zero_p_iff' u
+
+example : zero_p [0, 0, 0] = true ∧ zero_p [0, 0, 1] = false := by decide
+
 end Mpir
